@@ -8,6 +8,7 @@ ROOT = os.path.dirname(os.path.dirname(os.path.abspath(__file__)))
 # harness packages built by setup (name, kwargs for vlib.cargo_build)
 HARNESS_PACKAGES = [
     ("router-driver", {}),
+    ("macro-driver", {}),
 ]
 
 TB = ("Trusted: Coq 8.16.1 kernel and vm_compute; the hand-written Gallina model is tied to the code only by the "
@@ -26,6 +27,18 @@ CHECKS = {
         note=TB + "python mirror of parse_route; nested-Route capture fields and the browser integration (router.rs) are not modelled.",
         design="5.C17"),
 }
+
+CHECKS["C18"] = dict(
+    technique="Coq proof over a classification table regenerated from codegen.rs by a translator on every run + differential correspondence through the real syn parser and real Codegen",
+    text=("Theorems C18_is_dyn_conservative / C18_static_is_eval_free / C18_codegen_wraps hold for every syntax tree (no bound on "
+          "depth or width) over the full syn Expr/Pat/Stmt constructor set: any tree containing, outside closures, a call, method call, "
+          "non-view macro, await, try or assignment is classified dynamic. is_dyn is `classify dyn_rule` where dyn_rule is regenerated "
+          "from is_dyn/is_dyn_pattern/is_dyn_block/is_dyn_macro in codegen.rs by tools/c18_translate.py on every run, so the theorem is "
+          "re-proved against what the code says now; additionally ~8k (quick) / ~70k (thorough) generated Rust expressions go through the real "
+          "syn parser, the real view parser and Codegen in child and four attribute positions, and are compared with the model and judged "
+          "by a python oracle restating the property."),
+    note=TB + "the translator tools/c18_translate.py; the syn->tree conversion in harness/macro-driver; const blocks and nested items are treated as opaque like closures; compound assignment counts as a binary operator.",
+    design="5.C18")
 
 NOT_YET = {}
 
